@@ -47,4 +47,17 @@ bool ops_map(Ctx& c, const json& s, int idx, bool& handled) {
 		if (rs.Position() != sv.size()) { Proto::mismatch(site, "consumed", where(std::to_string(rs.Position()) + " of " + std::to_string(sv.size()))); return false; }
 		// same dimensions, tiles, clip rectangle, sources, mappings, terrain types: compared through the map serialisation with the groups dropped
 		a.tileGroups.clear(); b.tileGroups.clear(); if (map_bytes(a) != map_bytes(b)) { Proto::mismatch(site, "fields-differ", where(Scen::hexdiff(map_bytes(a), map_bytes(b)))); return false; } return true; }
+	// ---- C07: a (truncated / corrupted) map or saved game: an ordinary error, or a self-consistent map ---------------------
+	if (op == "robust_map") { const std::string fault = s["fault"], must = s["must"]; const bool save = s["kind"] == "save"; const std::string fsite = site + "/" + (save ? "save." : "map.") + fault;
+		Proto::sanitize(Proto::g_site, sizeof Proto::g_site, fsite);
+		auto img = Scen::expand(s["segs"]); Stream::MemoryReader r(img.data(), img.size()); Map m; bool err = false;
+		try { m = save ? Map::ReadSavedGame(r) : Map::ReadMap(r); } catch (const std::exception&) { err = true; }
+		if (must == "refuse" && !err) { Proto::mismatch(fsite, "accepted-should-refuse", where("a truncated file was read as a smaller success (" + std::to_string(img.size()) + " bytes)")); return false; }
+		if (must == "accept" && err) { Proto::mismatch(fsite, "refused-should-accept", where("")); return false; }
+		if (!err) { const unsigned long long w = m.WidthInTiles(), h = m.HeightInTiles();
+			if (w == 0 || (w & (w - 1)) != 0) { Proto::mismatch(fsite, "width-not-a-power-of-two", where("width " + std::to_string(w))); return false; }
+			if ((unsigned long long)m.TileCount() != w * h) { Proto::mismatch(fsite, "tiles-not-width-times-height", where(std::to_string(m.TileCount()) + " tiles for " + std::to_string(w) + " x " + std::to_string(h))); return false; }
+			// the returned object is usable: serialising it is an ordinary success or error
+			if (m.TileCount() < (1u << 22)) { try { auto out = map_bytes(m); } catch (const std::exception&) { } } }
+		return true; }
 	OPS_EPILOGUE }
